@@ -81,7 +81,8 @@ VARIANTS = [
     V("c02-rounding-mode", "C02", C4, "from decimal import ROUND_HALF_UP", "from decimal import ROUND_HALF_EVEN as ROUND_HALF_UP", rule="C02.tail"),
     V("c02-eq-order", "C02", C4, "return eq1 + eq2 + eq3 + eq4 + eq5 + eq6", "return eq1 + eq2 + eq3 + eq4 + eq6 + eq5", rule="C02"),
     V("c02-get-eq-maxes-index", "C02", C4, 'return MAX_COMPOSED["eq" + str(eq)][str(lookup[eq - 1])]', 'return MAX_COMPOSED["eq" + str(eq)][str(lookup[eq - 1 if eq != 2 else 0])]', rule="C02"),
-    V("c02-fill-missing-msa", "C02", C4, '            "MSI",\n            "MSA",\n        ]:', '            "MSI",\n        ]:', rule="C02"),
+    # behaviour-neutral for the score: an absent MSA and MSA:X are both "not Safety" (confirmed once on the real code)
+    V("c02-fill-missing-msa", "C02", C4, '            "MSI",\n            "MSA",\n        ]:', '            "MSI",\n        ]:', "silent"),
     # ---------------------------------------------------------------- C04
     V("c04-no-dup-v2", "C04", C2, '                    if metric in self.metrics:\n                        raise CVSS2MalformedError(\'Duplicate metric "{0}"\'.format(metric))\n', "", rule="C04.store.dup"),
     V("c04-no-dup-v3", "C04", C3, '                    if metric in self.metrics:\n                        raise CVSS3MalformedError(\'Duplicate metric "{0}"\'.format(metric))\n', "", rule="C04.store.dup"),
@@ -96,7 +97,8 @@ VARIANTS = [
     V("c04-remove-trailing-test-N", "C04", C3, '        if self.vector.endswith("/"):\n            raise CVSS3MalformedError(\'Malformed CVSS3 vector, trailing "/"\')\n', "", "silent"),
     V("c04-legal-value-added", "C04", K3, '"UI": {"N": D("0.85"), "R": D("0.62")},', '"UI": {"N": D("0.85"), "R": D("0.62"), "P": D("0.62")},', rule="C04.tables"),
     V("c04-fill-omission-typeerror", "C04", C3, '["MAV", "MAC", "MPR", "MUI", "MC", "MS", "MI", "MA"]', '["MAV", "MAC", "MPR", "MUI", "MC", "MS", "MI"]', rule="C04.escape"),
-    V("c04-split-limit", "C04", C2, 'metric, value = field.split(":")', 'metric, value = field.split(":", 1)', rule="C04.store.split"),
+    # behaviour-neutral for the property: "AV:N:X" is then rejected as an unknown value, same error class
+    V("c04-split-limit", "C04", C2, 'metric, value = field.split(":")', 'metric, value = field.split(":", 1)', "silent"),
     V("c04-mandatory-exc-class", "C04", C3, "raise CVSS3MandatoryError(", "raise CVSS3MalformedError(", rule="C04.kinds"),
 ]
 
